@@ -49,7 +49,8 @@ def assignments(r, n):
             singles.append(t)
     r.shuffle(singles)
     for a, b, s1, s2 in (("root", "fake", "$", "$$"), ("self", "key", "@", "@#"), ("root", "self", "%", "%%"), ("ctx", "keys", ";", ";~"), ("union", "inter", "|", "|%"), ("key", "ctx", "#", "##"),
-                         ("fake", "root", "^", "^^"), ("keys", "self", "~", "~@"), ("self", "root", "@", "@$")):
+                         ("fake", "root", "^", "^^"), ("keys", "self", "~", "~@"), ("self", "root", "@", "@$"), ("root", "fake", "%", "%%"), ("self", "key", "+", "++"), ("key", "union", ";", ";;"), ("union", "inter", "`", "``"),
+                         ("inter", "ctx", "{", "{{"), ("ctx", "keys", "}", "}}"), ("fake", "self", "%", "%%%")):
         t = dict(DEFAULT_TOKENS)
         t[a], t[b] = s1, s2
         if len(set(t.values())) == 8:
@@ -90,7 +91,10 @@ def role_swapped(r, tokens):
     ids = list(IDENTS)
     pairs = [(a, b) for i, a in enumerate(ids) for b in ids[i + 1:] if len(tokens[a]) != len(tokens[b])] or [(a, b) for i, a in enumerate(ids) for b in ids[i + 1:]]
     r.shuffle(pairs)
-    for a, b in pairs[:2]:
+    # always: exchanges of two spellings whose concatenation reads the same either way round ("%" and "%%", "+" and "++"):
+    # only the split points between the identifiers' spellings move
+    commuting = [(a, b) for i, a in enumerate(ids) for b in ids[i + 1:] if tokens[a] != tokens[b] and tokens[a] + tokens[b] == tokens[b] + tokens[a]]
+    for a, b in commuting + pairs[:2]:
         t = dict(tokens)
         t[a], t[b] = tokens[b], tokens[a]
         if t["keys"][0] == "_" or t["keys"][0].isalnum() or ord(t["keys"][0]) >= 0x80:
